@@ -372,6 +372,25 @@ func c11ErrorMap(c *Ctx) {
 		}
 	})
 	r.Check(pidOK && errOK, "C11/R3", "airgapped.writeErrorRequestToOperation:request", "the error request names this machine's participant and carries the handler error", c.Pos(wer.Pos()), sprintf("participant-id-from-own-instance=%v error-from-handler=%v", pidOK, errOK))
+	// the error conversion needs the round's instance (participant id) after the handler returned: nothing may remove it
+	var dels []string
+	if sp := c.P.SSAPkg("airgapped"); sp != nil {
+		for f := range c.P.AllFuncs() {
+			if f.Pkg != sp || c.isTestFunc(f) {
+				continue
+			}
+			ssax.Instrs(f, func(in ssa.Instruction) {
+				if call, ok := in.(*ssa.Call); ok {
+					if b, isB := call.Common().Value.(*ssa.Builtin); isB && b.Name() == "delete" && strings.HasSuffix(ssax.Path(call.Common().Args[0]), ".dkgInstances") {
+						dels = append(dels, f.Name()+" at "+c.PosOf(in))
+					}
+				}
+			})
+		}
+	}
+	sort.Strings(dels)
+	r.Check(len(dels) == 0, "C11/R3", "airgapped.Machine.dkgInstances:never-removed", "a round's DKG instance stays registered, so a handler error can always be reported under this machine's participant id", "",
+		"dkgInstances entries are deleted in "+strings.Join(dels, "; ")+": writeErrorRequestToOperation's getParticipantID then fails and the refusal is a fatal error without any error event — the round hangs instead of being cancelled")
 	// contribution xor error: after the (last) success message was appended no error return is possible
 	for _, h := range []string{"handleStateDkgCommitsAwaitConfirmations", "handleStateDkgDealsAwaitConfirmations", "handleStateDkgResponsesAwaitConfirmations", "handleStateDkgMasterKeyAwaitConfirmations", "handleStateSigningAwaitPartialSigns"} {
 		hf := c.Fn("C11/R3", "airgapped", "Machine", h)
